@@ -177,7 +177,10 @@ def canon_signature(exe, sig, detail):
         a, la = site2(m.group(1))
         b, lb = site2(m.group(2))
         x = sorted([(a, la), (b, lb)])
-        return f'race/{x[0][0]}~{x[1][0]}', detail + f' [{x[0][1]} ~ {x[1][1]}]'
+        # "user" side: the innermost (inlined) frame of the access lies in harness code, i.e. the access is made by code a user
+        # of the library wrote (payload constructor, critical section, coroutine body) rather than by the library itself
+        user = any('/scenarios/' in sy[pc][0][1] for pc in (m.group(1), m.group(2)))
+        return f'race/{x[0][0]}~{x[1][0]}', detail + f' [{x[0][1]} ~ {x[1][1]}]' + (' [user-side access involved]' if user else '')
     pcs = sorted(set(re.findall(r'pc (0x[0-9a-f]+)', detail)))
     if pcs and exe:
         sy = symbolise(exe, pcs)
@@ -291,7 +294,7 @@ def main():
             with cf.ThreadPoolExecutor(max_workers=par) as ex:
                 results = list(ex.map(lambda s: run_vrt_scenario(exe, s, job, per_scen_deadline, outdir), scens))
             jstat = dict(tu=job['tu'], engine='vrt', scenarios=len(scens), bound=('unbounded' if job.get('unbounded') else job['bound']),
-                         race_oracle=bool(job.get('race_oracle')), executions=0, states=0, transitions=0, distinct_traces=0,
+                         race_oracle=('user-side accesses' if job.get('race_oracle') == 'user' else bool(job.get('race_oracle'))), executions=0, states=0, transitions=0, distinct_traces=0,
                          distinct_nontrivial=0, distinct_outcomes=0, bound_completed_min=None, not_exhaustive=[], rounds_max=0,
                          racy_pcs=0, pruned_by_cache=0, deadlock_executions=0)
             jstat['skipped_scenarios'] = 0
@@ -329,6 +332,11 @@ def main():
                 for v in d['violations']:
                     sig, det = canon_signature(exe, v['sig'], v['detail'])
                     if job.get('ignore') and any(re.search(p, sig) for p in job['ignore']):
+                        continue
+                    if job.get('race_oracle') == 'user' and sig.startswith('race/') and '[user-side access involved]' not in det:
+                        # both accesses are made by library code: a data race of the library's own state is C03's subject; this
+                        # property's check counts races only where code written by the user of the library takes part
+                        jstat['library_internal_races_left_to_C03'] = jstat.get('library_internal_races_left_to_C03', 0) + v['count']
                         continue
                     raw_viol.append(dict(engine='vrt', exe=exe, scenario=d['scenario'], sig=sig, detail=det, schedule=v['schedule'],
                                          racy_pcs=','.join([x for x in d['racy_pcs'].split(',') if x][:v.get('nracy', 10**6)]), race_oracle=int(bool(job.get('race_oracle'))), spurious=int(bool(job.get('spurious'))), count=v['count'],
